@@ -114,7 +114,8 @@ def strategy(tier: str):
          "mid_saves": st.one_of(st.just([]), st.lists(st.integers(0, 24), min_size=1, max_size=3, unique=True).map(sorted)),
          "unlink_after_mid": st.sampled_from((False, False, True)),
          "final_saves": st.sampled_from((1, 1, 2)), "build": st.sampled_from((None, None, "outside", "two-runs")), "reload_after_use": st.booleans(), "nested_edit": st.sampled_from((False, False, True)),
-         "debug_log": st.sampled_from((False, False, True)), "warnings": st.sampled_from((None, None, "error")), "repath": st.sampled_from((False, False, True))}
+         "debug_log": st.sampled_from((False, False, True)), "warnings": st.sampled_from((None, None, "error")), "repath": st.sampled_from((False, False, True)),
+         "failed_load_first": st.sampled_from((None, None, None, "garbage", "[1, 2]", '{"9": {"node_id": "x"}}'))}
     )
     direct = st.fixed_dictionaries({"kind": st.just("direct"), "registry": _direct_registry(), "legacy_nulls": st.booleans(), "prior_save": prior, "load_via": load_via,
                                     "final_saves": st.sampled_from((1, 1, 2)), "unlink_after_mid": st.sampled_from((False, False, True)),
@@ -148,7 +149,8 @@ def enumerate_cases(tier: str):
                 yield {"kind": "hist", "version": "2.1", "ops": [["rx", "1;255;0;0;17;2.1\n"], ["rx", "1;0;0;0;6;t\n"], ["rx", "1;0;1;0;0;20\n"], ["rx", "2;255;0;0;17;2.1\n"]],
                        "load_via": via, "final_saves": finals, "unlink_after_mid": unlink, "mid_saves": [1, 3]}
     yield {"kind": "direct", "registry": small, "legacy_nulls": False, "load_via": "own", "final_saves": 1, "nested_edit": True}
-    for extra in ({"debug_log": True}, {"warnings": "error"}, {"repath": True}, {"repath": True, "final_saves": 2}, {"debug_log": True, "warnings": "error", "repath": True}):
+    for extra in ({"debug_log": True}, {"warnings": "error"}, {"repath": True}, {"repath": True, "final_saves": 2}, {"debug_log": True, "warnings": "error", "repath": True},
+                  {"failed_load_first": "not json at all"}, {"failed_load_first": '{"1": {"node_id": 1, "node_ty'}, {"failed_load_first": "[]"}, {"failed_load_first": '{"1": 5}', "final_saves": 2}):
         for via in ("own", "arg"):
             yield {"kind": "direct", "registry": small, "legacy_nulls": False, "load_via": via, "final_saves": 1, **extra}
             yield {"kind": "direct", "registry": {}, "legacy_nulls": False, "load_via": via, "final_saves": 1, **extra}
@@ -322,6 +324,13 @@ def _run_overlap(case: dict) -> Outcome:
     return Outcome(ok=True, nontrivial=True, classes=classes)
 
 
+def opt_cases(tier: str):
+    """Cases also executed by an interpreter started with -O (see vf/optpass.py): the enumerated direct and history round trips."""
+    for case in enumerate_cases(tier):
+        if case.get("kind") in ("direct", "hist") and not case.get("build"):
+            yield case
+
+
 def run_case(case: dict) -> Outcome:
     if case["kind"] == "locale":
         return _run_locale(case)
@@ -343,6 +352,17 @@ def run_case(case: dict) -> Outcome:
         nonlocal path
         # "outside": the objects are created by synchronous start-up code before any event loop runs (then asyncio.run)
         gateway = built_outside or Gateway(env.RecordingTransport(), Config(persistence_file=path))
+        if case.get("failed_load_first"):
+            # the object first met a damaged file (reported as PersistenceReadError, as it should be); the application goes on with
+            # what it learns from the network and saves: the file is rewritten
+            with open(path, "w", encoding="utf-8") as fil:
+                fil.write(case["failed_load_first"])
+            try:
+                await gateway.persistence.load()
+            except AIOMySensorsError:
+                pass
+            except Exception as err:  # noqa: BLE001
+                return fail(f"load-rejects-saved-file:earlier-session:{type(err).__name__}", f"loading a damaged file raised {err!r}")
         if case.get("repath"):
             # the application points the Persistence object at another file after it was built (its `path` is a public field)
             path = os.path.join(scratch, "moved-registry.json")
